@@ -20,17 +20,17 @@ const modPath = "github.com/pegnet/pegnetd"
 
 // Ctx is everything the engines share.
 type Ctx struct {
-	Repo  string
-	Pkgs  []*packages.Package // module packages only
-	All   []*packages.Package
-	Fset  *token.FileSet
-	Prog  *ssa.Program
-	SPkg  map[string]*ssa.Package // short name -> ssa package (module only)
-	PPkg  map[string]*packages.Package
-	Funcs []*ssa.Function // every module function incl. anonymous, sorted by name
+	Repo       string
+	Pkgs       []*packages.Package // module packages only
+	All        []*packages.Package
+	Fset       *token.FileSet
+	Prog       *ssa.Program
+	SPkg       map[string]*ssa.Package // short name -> ssa package (module only)
+	PPkg       map[string]*packages.Package
+	Funcs      []*ssa.Function // every module function incl. anonymous, sorted by name
 	ownersMemo map[*ssa.Function][]string
-	CG    map[*ssa.Function][]*Edge
-	In    map[*ssa.Function][]*Edge
+	CG         map[*ssa.Function][]*Edge
+	In         map[*ssa.Function][]*Edge
 
 	Sync    *ssa.Function   // DBlockSync (structurally derived)
 	Block   []*ssa.Function // callees of Sync that receive the block *sql.Tx
@@ -40,8 +40,8 @@ type Ctx struct {
 
 	RSync, RAPI, RStartup, RBlock map[*ssa.Function]bool
 
-	Verif string
-	Tier  string
+	Verif  string
+	Tier   string
 	allFns map[*ssa.Function]bool
 }
 
